@@ -87,6 +87,13 @@ def run(ctx):
                     oc = fl.outcomes(lb)
                     if any(cfg.edges_guard(e, cb) for e in oc.values() if e):
                         guarded = True
+                    # the look may be consumed by an Option/Result predicate (`.is_some_and(..)`, `.is_none()`, `.map_or(..)`):
+                    # then the predicate's edges are the evidence
+                    for ub, ut in fl.calls(lambda c: c.split('::')[-1] in ('is_some_and', 'is_some', 'is_none', 'is_none_or', 'map_or', 'is_ok', 'is_err', 'is_ok_and')):
+                        if any(o.kind == 'call' and o.bb == lb for o in fl.origins(ut['args'][0])):
+                            oc2 = fl.outcomes(ub)
+                            if any(cfg.edges_guard(e, cb) for e in oc2.values() if e):
+                                guarded = True
             ctx.check(guarded, 'C02.R2', key, 'guarded by a look at the destination name',
                       'conflict-copy is written with copy_atomic without looking at what already lives at the derived name: '
                       'an edited earlier conflict-copy with the same name is overwritten', term_loc(bs.apply, cb))
